@@ -341,7 +341,7 @@ def request_bytes(req):
     return head + b"\r\n" + body
 
 
-def do_request(host, port, req, deadline, hold=None):
+def do_request(host, port, req, deadline, hold=None, stuck_probe=None):
     """one client connection: send the request bytes (optionally in pieces / closing early), read
     everything the server sends until it closes. hold = (sent, release): after sending, signal `sent`
     and keep the connection open and silent until `release` is set (a client that stalls mid-request)."""
@@ -382,9 +382,24 @@ def do_request(host, port, req, deadline, hold=None):
             if e.errno not in (errno.EPIPE, errno.ECONNRESET, errno.ENOTCONN):
                 raise
             send_error = errno.errorcode.get(e.errno, str(e.errno))  # the server closed while we were still sending
-        raw, eof, reset = read_all(s, deadline)
-        return {"refused": False, "raw": raw.hex(), "eof": eof, "reset": reset, "client": local, "server": peer,
-                "send_error": send_error}
+        t0 = time.monotonic()
+        stuck = []
+
+        def give_up():
+            # nothing has arrived for RESP_S seconds and a request worker of the server is still inside the
+            # request handling code: the response is not going to come (a stalled machine shows no such worker)
+            if stuck_probe is None or time.monotonic() < t0 + RESP_S:
+                return False
+            ev = stuck_probe()
+            if ev:
+                stuck.append(ev)
+            return bool(ev)
+        raw, eof, reset = read_all(s, deadline, give_up=give_up if stuck_probe else None)
+        out = {"refused": False, "raw": raw.hex(), "eof": eof, "reset": reset, "client": local, "server": peer,
+               "send_error": send_error}
+        if stuck and not eof and not reset:
+            out.update(no_response=True, evidence=stuck[-1])
+        return out
     finally:
         if hold:
             hold[0].set()
@@ -392,6 +407,23 @@ def do_request(host, port, req, deadline, hold=None):
 
 
 STARVE_S = float(os.environ.get("VERIF_HTTP_STARVE_S", "10"))
+RESP_S = float(os.environ.get("VERIF_HTTP_RESP_S", "20"))
+
+
+def request_worker_stuck(baseline):
+    """a per-request worker thread of the server is alive and inside vinegar's request handling"""
+    frames = sys._current_frames()
+    for t in new_threads(baseline):
+        if "process_request_thread" not in t.name:
+            continue
+        f = frames.get(t.ident)
+        names = []
+        while f is not None:
+            names.append(f.f_code.co_name)
+            f = f.f_back
+        if "_delegate_request" in names:
+            return {"thread": t.name, "stack": names[:10]}
+    return None
 
 
 def serving_thread_busy_with_a_request(baseline):
@@ -466,7 +498,8 @@ def run_exchange(case):
             def work(i, req):
                 try:
                     host = client_host_for(bind, req.get("client"))
-                    results[i] = do_request(host, port, req, deadline)
+                    results[i] = do_request(host, port, req, deadline,
+                                            stuck_probe=lambda: request_worker_stuck(baseline))
                 except InfraTimeout as e:
                     errors.append(("timeout", str(e)))
                 except Exception as e:  # noqa
@@ -545,7 +578,8 @@ def run_exchange(case):
                         errors.append(("timeout", "client thread"))
             if errors:
                 return {"infrastructure": errors[:3]}
-            wait_request_threads_done(baseline, deadline)
+            if not any(r and r.get("no_response") for r in results):
+                wait_request_threads_done(baseline, deadline)
             entries = log.take()
             groups = {}
             for th, e in entries:
